@@ -172,3 +172,136 @@ def replay_file(prop, cfg, path):
         print("VIOLATION property=%s replay=%s" % (prop, path))
     shutil.rmtree(ctx.scratch, ignore_errors=True)
     return 1 if bad else 0
+
+
+# ------------------------------------------------------------------ system histories
+
+SYS_PROFILES = ["mixed", "overload", "adapters", "local", "exit"]
+
+
+def run_sys_shard(bindir, seed, n, prof, outfile):
+    """one harness process per shard; a history that leaves the real system in an unknown state
+    (panic, stuck thread) ends the process, which is then resumed at the next history"""
+    first = 0
+    parts = []
+    guard = 0
+    while first < n and guard < n + 2:
+        guard += 1
+        part = "%s.part%d" % (outfile, len(parts))
+        rc, out = vc.run("%s/vharness sys --seed %d --first %d --n %d --profile %s --out %s" %
+                         (bindir, seed, first, n, prof, part), timeout=1200)
+        parts.append(part)
+        if rc == 0:
+            break
+        nxt = None
+        if os.path.exists(part):
+            for line in open(part, errors="replace"):
+                if line.startswith("#resume "):
+                    nxt = int(line.split()[1])
+        if nxt is None or nxt <= first:
+            # crashed without telling where: skip one history
+            nxt = first + 1 + sum(1 for l in open(part, errors="replace") if l.startswith("E")) if os.path.exists(part) else first + 1
+        first = nxt
+    with open(outfile, "w") as o:
+        for p in parts:
+            if os.path.exists(p):
+                o.write(open(p, errors="replace").read())
+                os.remove(p)
+    return outfile
+
+
+def parse_sys_output(res, out, casefile):
+    for line in out.split("\n"):
+        if line.startswith("DISAGREE "):
+            m = re.match(r"DISAGREE (\S+) (.*)$", line)
+            res.disagreements.append({"hist": m.group(1), "detail": m.group(2)[:3000], "file": casefile})
+        elif line.startswith("ORACLEFAIL "):
+            m = re.match(r"ORACLEFAIL (\S+) (\S+) (.*)$", line)
+            res.oracle_fails.append({"hist": m.group(1), "prop": m.group(2), "case": m.group(3)[:3000], "file": casefile})
+        elif line.startswith("KNOWNHIT "):
+            m = re.match(r"KNOWNHIT (\S+) (\S+) (\S+)", line)
+            if m:
+                res.stats["known:" + m.group(3)] = res.stats.get("known:" + m.group(3), 0) + 1
+                res.known_ids.add(m.group(3))
+        elif line.startswith("SUMMARY "):
+            kv = dict(x.split("=") for x in line.split()[1:])
+            res.cases += int(kv.get("cases", 0))
+            res.nontrivial += int(kv.get("nontrivial", 0))
+            res.stats["actions"] = res.stats.get("actions", 0) + int(kv.get("actions", 0))
+
+
+def extract_history(casefile, hid):
+    out, on = [], False
+    with open(casefile, errors="replace") as f:
+        for line in f:
+            if line.startswith("H "):
+                on = line.split()[1] == hid
+            if on:
+                out.append(line)
+                if line.startswith("E"):
+                    break
+    return "".join(out)
+
+
+def sys_stream_for(name, profiles, quick_n, thorough_n, release=False, shards_per_profile=None):
+    def stream(ctx):
+        res = StreamResult(name)
+        res.known_ids = set()
+        bindir = ctx.harness("core", release=release)
+        drv = ctx.driver()
+        n = ctx.scale(quick_n, thorough_n)
+        spp = shards_per_profile or max(1, vc.NCPU // max(1, len(profiles)))
+        jobs = []
+        corpus_dir = os.path.join(vc.VERIF, "corpus", ctx.prop)
+        files = []
+        # corpus first
+        if os.path.isdir(corpus_dir):
+            for fn in sorted(os.listdir(corpus_dir)):
+                if fn.endswith(".hist"):
+                    outp = os.path.join(ctx.scratch, "corpus-" + fn + ("-rel" if release else "") + ".txt")
+                    rc, out = vc.run("%s/vharness sys --replay %s --out %s" % (bindir, os.path.join(corpus_dir, fn), outp), timeout=600)
+                    files.append(outp)
+        import concurrent.futures as cf
+        with cf.ThreadPoolExecutor(max_workers=vc.NCPU) as ex:
+            futs = []
+            for prof in profiles:
+                for sh in range(spp):
+                    outp = os.path.join(ctx.scratch, "%s-%s-%d%s.txt" % (name, prof, sh, "-rel" if release else ""))
+                    futs.append(ex.submit(run_sys_shard, bindir, ctx.seed * 100 + sh, n, prof, outp))
+            for f in futs:
+                files.append(f.result())
+        outs = vc.parallel(["%s sys %s %s" % (drv, f, ctx.prop) for f in files])
+        for (rc, out), f in zip(outs, files):
+            if rc != 0:
+                raise BuildError("model driver failed on %s: %s" % (f, out[-2000:]))
+            parse_sys_output(res, out, f)
+            collect_stats(res, f, nsamples=0)
+        # one sample history
+        for f in files:
+            try:
+                txt = open(f, errors="replace").read().split("\nE\n")[0]
+                res.samples.append(txt[:1500])
+                break
+            except Exception:
+                pass
+        keep_failing_histories(ctx, res)
+        return res
+    return stream
+
+
+def keep_failing_histories(ctx, res):
+    fails = res.oracle_fails[:10] + res.disagreements[:10]
+    if fails:
+        outp = os.path.join(vc.VERIF, "replays", "%s-%s-hist-%d.txt" % (ctx.prop, res.name, ctx.seed))
+        os.makedirs(os.path.dirname(outp), exist_ok=True)
+        seen = set()
+        with open(outp, "w") as o:
+            for d in fails:
+                key = (d.get("file"), d.get("hist"))
+                if key in seen or not d.get("file"):
+                    continue
+                seen.add(key)
+                o.write(extract_history(d["file"], d["hist"]))
+        for d in res.oracle_fails + res.disagreements:
+            d["file"] = os.path.relpath(outp, vc.VERIF)
+    shutil.rmtree(ctx.scratch, ignore_errors=True)
